@@ -103,13 +103,14 @@ impl<'de> Multipart<'de> {
                     let content = {
                         let before_boundary = r.read_until(boundary);
                         let before_boundary_len = before_boundary.len();
-                        let Some((content, CRLF)) = (before_boundary_len >= CRLF.len()).then_some(unsafe {
-                            use std::slice::from_raw_parts;
-
-                            let ptr = before_boundary.as_ptr();
-                            let mid = before_boundary_len - CRLF.len();
-                            (from_raw_parts(ptr, mid), from_raw_parts(ptr.add(mid), CRLF.len()))
-                        }) else {return Err((|| Error::MissingCRLF())())};
+                        /* not `then_some`: its argument ( the subtraction ) is evaluated eagerly */
+                        if before_boundary_len < CRLF.len() {
+                            return Err((|| Error::MissingCRLF())())
+                        }
+                        let (content, crlf) = before_boundary.split_at(before_boundary_len - CRLF.len());
+                        if crlf != CRLF {
+                            return Err((|| Error::MissingCRLF())())
+                        }
 
                         r.consume(boundary).ok_or_else(Error::ExpectedBoundary)?;
 
